@@ -39,25 +39,43 @@ def _is_valid_uri(x):
     return f(x)
 
 
-@contract("mapping_service.api.MappingServiceGraph._expand_pair_all", props=["C18"], returns="list[str]",
-          partial="69 of 73 obligations discharge (all safety obligations: the strict=True call cannot raise, unrecognised URIs give []); open: the four clauses tying the result to the named longest-prefix witness")
+def ms_longest(conv, uri_in, r, k):
+    """k is a URI prefix of record r and the longest registered URI prefix of uri_in (k and r are unique under WF)."""
+    return k in U(r) and uri_in.startswith(k) and is_longest(conv, uri_in, k)
+
+
+def ms_only(conv, uri_in, result):
+    """Every result renders uri_in's identifier under a URI prefix of the owning record."""
+    return any(uri_in.startswith(k) and is_longest(conv, uri_in, k)
+               and all(str(x) == r.uri_prefix + uri_in[len(k):] or any(str(x) == s + uri_in[len(k):] for s in r.uri_prefix_synonyms) for x in result)
+               for r in conv.records for k in U(r))
+
+
+def ms_canonical(conv, uri_in, result):
+    return any(uri_in.startswith(k) and is_longest(conv, uri_in, k)
+               and (not _is_valid_uri(r.uri_prefix + uri_in[len(k):]) or any(str(x) == r.uri_prefix + uri_in[len(k):] for x in result))
+               for r in conv.records for k in U(r))
+
+
+def ms_synonyms(conv, uri_in, result):
+    return any(uri_in.startswith(k) and is_longest(conv, uri_in, k)
+               and all(not _is_valid_uri(s + uri_in[len(k):]) or any(str(x) == s + uri_in[len(k):] for x in result) for s in r.uri_prefix_synonyms)
+               for r in conv.records for k in U(r))
+
+
+@contract("mapping_service.api.MappingServiceGraph._expand_pair_all", props=["C18"], returns="list[str]")
 def c_ms_expand_pair_all(self: MappingServiceGraph, uri_in: str):
     requires(WF(self.converter))
     conv = self.converter
     hit = uri_hit(conv, uri_in)
-    # the record owning the longest registered URI prefix of uri_in, that prefix, and the remainder
-    rr = next((r for r in conv.records if any(uri_in.startswith(k) and is_longest(conv, uri_in, k) for k in U(r))), None)
-    kk = (next((k for k in ([rr.uri_prefix] + list(rr.uri_prefix_synonyms)) if uri_in.startswith(k) and is_longest(conv, uri_in, k)), None)
-          if rr is not None else None)
-    rest = uri_in[len(kk):] if kk is not None else None
     # the strict=True call inside never raises: there is no raises-clause
     ensures(implies(not hit, len(result) == 0))
-    # exactly the syntactically valid renderings of that reference under every URI prefix of its record
-    ensures(implies(hit, rr is not None and kk is not None))
     ensures(implies(hit, all(_is_valid_uri(str(x)) for x in result)))
-    ensures(implies(hit, all(str(x) == rr.uri_prefix + rest or any(str(x) == s + rest for s in rr.uri_prefix_synonyms) for x in result)))
-    ensures(implies(hit and _is_valid_uri(rr.uri_prefix + rest), any(str(x) == rr.uri_prefix + rest for x in result)))
-    ensures(implies(hit, all(not _is_valid_uri(s + rest) or any(str(x) == s + rest for x in result) for s in rr.uri_prefix_synonyms)))
+    # exactly the syntactically valid renderings under every URI prefix of the record owning the longest registered prefix
+    # (three clauses, each naming that record existentially; it is unique under WF)
+    ensures(implies(hit, ms_only(conv, uri_in, result)))
+    ensures(implies(hit, ms_canonical(conv, uri_in, result)))
+    ensures(implies(hit, ms_synonyms(conv, uri_in, result)))
     ensures([str(x) for x in result] == equivalent_uris(self.converter, uri_in), native=True)
     ensures(conv_state(self.converter) == old(conv_state(self.converter)), native=True)
 
